@@ -9,7 +9,7 @@ From QV Require Import Spec.MsgWriterS.
 From QV Require Import Base.ListX Model.MsgWriter Proofs.MsgWriterP Proofs.MsgWriterScanP
      Proofs.MsgWriterNameP Proofs.MsgWriterTabP Proofs.MsgWriterTopP Proofs.MsgWriterInvP
      Proofs.MsgWriterClosP Proofs.MsgWriterNameSP Proofs.MsgWriterLayP Proofs.MsgWriterOpP
-     Proofs.MsgWriterStepP Proofs.MsgWriterMsgP.
+     Proofs.MsgWriterStepP Proofs.MsgWriterMsgP Proofs.MsgWriterDecP Proofs.MsgWriterRtP.
 From QV Require Import Spec.MsgWriterAbsS.
 
 (* What is written for an owner name is either the plain wire form, or k leading labels and
@@ -164,6 +164,22 @@ Theorem c13_message_pointers_valid : forall buf limit w0 ops, writer_new buf lim
     end.
 Proof. exact run_writer_layout. Qed.
 
+(* THROUGH THE SPECIFICATION'S OWN CHECKER.  For every contract-obeying operation sequence the finished
+   message decodes under the independent RFC 1035 decoder, and the decoded message passes the pointer
+   rules of Spec/MsgWriterS.v (check_qs / check_rrs / check_name / check_parts -- the core of judge13):
+   walking the names in message order, every pointer that ends a name's first chunk leads strictly before
+   that name to a label start (root octets included) collected from the names decoded BEFORE it, and the
+   uncompressible RDATA names (SRV, Chaosnet A) carry no pointer -- for any expected-item lists that do
+   not demand "no compression at all" (a_nocomp = false). *)
+Theorem c13_spec_pointer_rules_hold : forall buf limit w0 ops, writer_new buf limit = Ok w0 ->
+  run_contract (mkD w0 []) g0 ops -> Forall op_wf ops -> Forall op_wf2 ops ->
+  exists rr, run_writer buf limit ops = Ok rr /\
+    match rr_final rr with
+    | Some (len, b) => exists m, decode_msg (firstn len b) = Some m /\ ptr_ok (firstn len b) m
+    | None => True
+    end.
+Proof. exact pointer_rules. Qed.
+
 (* Non-vacuity: after a question for "a." in a concrete buffer the hypotheses hold
    (QNAME anchor at offset 12), and writing "www.a." emits "www" + a pointer to offset 12. *)
 Definition ex_w : writer :=
@@ -233,3 +249,4 @@ Print Assumptions c13_unhinted_pointer_into_label_starts.
 Print Assumptions c13_anchor_invariant_all_ops.
 Print Assumptions c13_message_pointers_valid_partial.
 Print Assumptions c13_message_pointers_valid.
+Print Assumptions c13_spec_pointer_rules_hold.
